@@ -28,7 +28,7 @@ RULE = ("kinds: rel (a partially observed screen built with the real Screen cons
         "bit-for-bit with each other and the training arrays / single-effect lookup with the model); refuse (a negative / "
         "NaN / -inf / edge value planted in an observed row, or masked rows handed to add_observations directly - as the screen, or as the Plate-typed union of its plates); inner "
         "(_add_observations called directly, correspondence only); cli (batchie.cli.train_model.main in-process on both "
-        "screens).  Non-trivial: at least one masked and one observed row (rel/cli) or a planted value (refuse); distinct "
+        "screens; the training arrays are captured before AND after sampling.sample).  Non-trivial: at least one masked and one observed row (rel/cli) or a planted value (refuse); distinct "
         "by canonical case description.")
 THEOREMS = {
     "C04_train_noninterference_sdc": "two row lists that differ only in masked observation values give equal SparseDrugCombo training data (train_model path), every oracle / float32 cast",
@@ -674,12 +674,6 @@ def gen_cfg(rng, sd):
                 max_chunk=rng.choice([1, 2, 50]), max_triples=rng.choice([1, 3, 5000]))
 
 
-def _plate_ids(sd):
-    """plate name -> id as the real constructor assigns them (dense, in order of first appearance is NOT assumed: the
-    harness reads the ids back from the built screen in run(); here only names are chosen)"""
-    return sorted({r["p"] for r in sd["rows"]})
-
-
 def _hidden_batch(rng, sd):
     """0..2 NAMES of still-hidden plates, leaving at least one hidden plate as a candidate (run() turns names into ids)"""
     hidden = sorted({r["p"] for r in sd["rows"] if not r["m"]})
@@ -1021,6 +1015,8 @@ def run(desc):
                 pred = "noninterference-cli-%s: train_model.main differs between the two screens" % (k[0] if k else "status")
             if pred is None and isinstance(ca, dict) and ca["training"] != train_bits(model, ia):
                 pred = "cli-training-data: train_model.main trained on other data than subset_observed + add_observations"
+            if pred is None and isinstance(ca, dict) and ca.get("training_after") != ca["training"]:
+                pred = "cli-training-data-after-sampling: the model's training arrays after sampling.sample differ from those add_observations stored"
             if pred is None and not isinstance(ca, dict) and not isinstance(ia, ImplError):
                 pred = "cli-failed: train_model.main raised %r" % (ca,)
         # 2. a screen that still has masked rows is refused when handed over directly
@@ -1281,6 +1277,8 @@ def run_grid(desc):
                 pred = ("grid-training-order-differs: same rows, different order" if sorted(got, key=key) == sorted(doc, key=key)
                         else "grid-training-rows-differ: %d rows trained, %d observed; first difference %s" % (
                             len(got), len(doc), next(((g, d) for g, d in zip(got, doc) if g != d), None)))
+    if pred is None and isinstance(ii, ImplError) and ii.cls == "AssertionError":
+        pred = "grid-training-arrays-inconsistent: after _add_observations on a screen with %d masked rows the six training arrays have different lengths (%s)" % (n_masked, ii.msg[:60])
     if pred is None and not raised and n_obs >= 2:
         ic = grid_result(sa, 3)
         feats.append("fed-in-pieces")
@@ -1346,7 +1344,12 @@ def cli_run(model, screen, seed):
                                           training_of(model) if type(model).__name__ == "SparseDrugCombo"
                                           else [lookup_of(model), training_of(model)])
         captured["n_obs"] = model.n_obs()
-        return orig_sample(model=model, **kw)
+        r = orig_sample(model=model, **kw)
+        # ... and after sampling (reset_model / step must not re-create, duplicate or drop training rows: `each exactly once`)
+        captured["training_after"] = train_bits(SDC if type(model).__name__ == "SparseDrugCombo" else INT,
+                                                training_of(model) if type(model).__name__ == "SparseDrugCombo"
+                                                else [lookup_of(model), training_of(model)])
+        return r
 
     def go():
         data = os.path.join(tmp, "data.h5")
@@ -1365,7 +1368,7 @@ def cli_run(model, screen, seed):
             warnings.simplefilter("ignore")
             train_model.main()
         th = ThetaHolder.load_h5(out)
-        return dict(training=captured.get("training"), n_obs=captured.get("n_obs"),
+        return dict(training=captured.get("training"), n_obs=captured.get("n_obs"), training_after=captured.get("training_after"),
                     thetas=repr([theta_bytes(th.get_theta(i)) for i in range(th.n_thetas)]))
     try:
         r = impl_call(go)
